@@ -47,7 +47,7 @@ type e2eInput struct {
 	MinSecs, MaxSecs   int
 	PreviewSecs        int
 	Const              bool
-	Throttle           string // off | transparent | impossible | tight (2 s bucket, 1 s refill: cuts and mid-event restarts)
+	Throttle           string // off | transparent | impossible | tight (4 s bucket, 1 s refill: cuts and mid-event restarts)
 	PaceMs             int    `json:",omitempty"` // > 0: wait this many milliseconds after every frame
 	DeviceName         string
 	DeviceID           int
@@ -55,6 +55,9 @@ type e2eInput struct {
 	Alt, Acc           float32
 	WindowClosed       bool
 	DiskFull           bool
+	DiskMode           int    `json:",omitempty"` // 0: min-disk-space 0 / huge (DiskFull); 1: just below the space available; 2: between available and free (reserved blocks)
+	MinDiskMB          uint64 `json:",omitempty"` // set at run time for DiskMode 1, 2
+	LocMode            int    `json:",omitempty"` // 0 full [location]; 1 no section; 2 no latitude/longitude; 3 latitude only
 	Motion             e2eMotion
 	Items              []e2eItem
 	Chunks             []int
@@ -74,6 +77,7 @@ type e2eObs struct {
 	Why        string    `json:"why,omitempty"`
 	Leftover   []string  `json:"leftover_names"`
 	ConnErr    string    `json:"conn_end"`
+	ElapsedMs  int64     `json:"elapsed_ms,omitempty"` // wall time of the connection under test
 }
 
 func (in e2eInput) effMotion() goconfig.ThermalMotion {
@@ -137,9 +141,18 @@ func (in e2eInput) toml(out, sock string) string {
 	}
 	fmt.Fprintf(&sb, "[device]\nid = %d\nname = %q\n\n", in.DeviceID, in.DeviceName)
 	fmt.Fprintf(&sb, "[lepton]\nframe-output = %q\n\n", sock)
-	fmt.Fprintf(&sb, "[location]\nlatitude = %v\nlongitude = %v\naltitude = %v\naccuracy = %v\ntimestamp = 2021-06-01T10:20:30Z\n\n", in.Lat, in.Long, in.Alt, in.Acc)
+	switch in.LocMode {
+	case 0:
+		fmt.Fprintf(&sb, "[location]\nlatitude = %v\nlongitude = %v\naltitude = %v\naccuracy = %v\ntimestamp = 2021-06-01T10:20:30Z\n\n", in.Lat, in.Long, in.Alt, in.Acc)
+	case 2:
+		fmt.Fprintf(&sb, "[location]\naltitude = %v\naccuracy = %v\ntimestamp = 2021-06-01T10:20:30Z\n\n", in.Alt, in.Acc)
+	case 3:
+		fmt.Fprintf(&sb, "[location]\nlatitude = %v\n\n", in.Lat)
+	}
 	fmt.Fprintf(&sb, "[thermal-recorder]\noutput-dir = %q\nconstant-recorder = %s\n", out, b(in.Const))
-	if in.DiskFull {
+	if in.DiskMode > 0 {
+		fmt.Fprintf(&sb, "min-disk-space-mb = %d\n", in.MinDiskMB)
+	} else if in.DiskFull {
 		sb.WriteString("min-disk-space-mb = 1000000000\n")
 	} else {
 		sb.WriteString("min-disk-space-mb = 0\n")
@@ -156,7 +169,7 @@ func (in e2eInput) toml(out, sock string) string {
 	case "impossible":
 		sb.WriteString("activate = true\nbucket-size = \"1s\"\nmin-refill = \"10m\"\n")
 	case "tight":
-		sb.WriteString("activate = true\nbucket-size = \"2s\"\nmin-refill = \"1s\"\n")
+		sb.WriteString("activate = true\nbucket-size = \"4s\"\nmin-refill = \"1s\"\n")
 	}
 	sb.WriteString("\n[windows]\n")
 	if in.WindowClosed {
@@ -332,6 +345,31 @@ func decodeFull(path string, in e2eInput, sentPix [][][]int, ton, lffc []int, te
 	return f, why
 }
 
+// fixDisk chooses min-disk-space at the boundary of the space actually available on the file
+// system the output directory will be on (done before the run so that the model sees the same
+// "disk check passes / fails" as the daemon).
+func (in *e2eInput) fixDisk() {
+	if in.DiskMode == 0 {
+		return
+	}
+	// the recorder must compare min-disk-space with the space available to it (f_bavail), not
+	// with the free space including the blocks reserved for root (f_bfree)
+	var fs syscall.Statfs_t
+	syscall.Statfs(runDir(), &fs)
+	avail := fs.Bavail * uint64(fs.Bsize) / 1024 / 1024
+	free := fs.Bfree * uint64(fs.Bsize) / 1024 / 1024
+	switch {
+	case in.DiskMode == 1 && avail > 200:
+		in.MinDiskMB, in.DiskFull = avail-100, false // enough space, barely
+	case in.DiskMode == 2 && free > avail+200:
+		in.MinDiskMB, in.DiskFull = avail+(free-avail)/2, true // not enough for us although "free" says so
+	case in.DiskMode == 2:
+		in.MinDiskMB, in.DiskFull = avail+100, true
+	default:
+		in.DiskMode, in.DiskFull = 0, false
+	}
+}
+
 func e2eRun(in e2eInput) e2eObs {
 	var o e2eObs
 	dir, _ := ioutil.TempDir(runDir(), "e2e")
@@ -424,7 +462,9 @@ func e2eRun(in e2eInput) e2eObs {
 		}
 		time.Sleep(3 * time.Millisecond)
 	}
+	t0 := time.Now()
 	connErr, why := session(in)
+	o.ElapsedMs = time.Since(t0).Milliseconds() + 1
 	if why != "" {
 		o.Why = why
 		return o
@@ -469,13 +509,27 @@ func e2eRun(in e2eInput) e2eObs {
 		chk(r.ResX() == in.W && r.ResY() == in.H, "resolution")
 		chk(r.FPS() == in.FPS, "fps")
 		chk(r.PreviewSecs() == preview, "preview-secs")
-		chk(r.Latitude() == in.Lat && r.Longitude() == in.Long, "location")
-		wantAlt := in.Alt
-		if in.Alt < 0 {
+		// what config.toml says about the location; keys that are absent read as zero / not set
+		lat, long, alt, acc, hasTS := in.Lat, in.Long, in.Alt, in.Acc, true
+		switch in.LocMode {
+		case 1:
+			lat, long, alt, acc, hasTS = 0, 0, 0, 0, false
+		case 2:
+			lat, long = 0, 0
+		case 3:
+			long, alt, acc, hasTS = 0, 0, 0, false
+		}
+		chk(r.Latitude() == lat && r.Longitude() == long, "location")
+		wantAlt := alt
+		if alt < 0 {
 			wantAlt = 0
 		}
-		chk(r.Altitude() == wantAlt && r.Accuracy() == in.Acc, "altitude/accuracy")
-		chk(r.LocTimestamp().UTC().Equal(time.Date(2021, 6, 1, 10, 20, 30, 0, time.UTC)), "location-timestamp")
+		chk(r.Altitude() == wantAlt && r.Accuracy() == acc, "altitude/accuracy")
+		if hasTS {
+			chk(r.LocTimestamp().UTC().Equal(time.Date(2021, 6, 1, 10, 20, 30, 0, time.UTC)), "location-timestamp")
+		} else {
+			chk(r.LocTimestamp().IsZero(), "location-timestamp-absent")
+		}
 		chk(r.MotionConfig() == fmt.Sprintf("%striggeredthresh: %d\n", string(my), thresh), "motion-config")
 		return why
 	}
@@ -586,6 +640,15 @@ func e2eGen1(rng *rand.Rand, i int) e2eInput {
 	in.Alt, in.Acc = []float32{0, 120.5, -1}[rng.Intn(3)], []float32{0, 15}[rng.Intn(2)]
 	in.WindowClosed = rng.Intn(7) == 0
 	in.DiskFull = rng.Intn(9) == 0
+	if rng.Intn(4) == 0 { // min-disk-space at the boundary of the space actually available (set at run time)
+		in.DiskMode = []int{1, 2, 2}[rng.Intn(3)]
+		in.DiskFull = in.DiskMode == 2
+		in.WindowClosed = false // the disk check must be what decides
+		if in.Throttle == "impossible" {
+			in.Throttle = "transparent"
+		}
+	}
+	in.LocMode = []int{0, 0, 0, 1, 2, 3}[rng.Intn(6)]
 	m := &in.Motion
 	m.Set = map[string]bool{}
 	keys := []string{"dynamic-threshold", "temp-thresh", "temp-thresh-min", "temp-thresh-max", "delta-thresh", "count-thresh", "frame-compare-gap", "use-one-diff-only", "trigger-frames", "warmer-only", "edge-pixels"}
@@ -615,6 +678,9 @@ func e2eGen1(rng *rand.Rand, i int) e2eInput {
 	for k := 0; k < n; k++ {
 		if rng.Intn(40) == 0 {
 			in.Items = append(in.Items, e2eItem{Clear: true})
+			if rng.Intn(3) == 0 { // a camera that restarts twice in a row sends two markers
+				in.Items = append(in.Items, e2eItem{Clear: true})
+			}
 		}
 		if rng.Intn(14) == 0 {
 			blob = !blob
@@ -723,7 +789,7 @@ func init() {
 		emit(Case{Coq: e2eCoq(in, o), Input: in, Impl: o, Tags: []string{"probe:frame-starts-with-marker"}, Nontriv: true, Key: "inband",
 			Extra: map[string]interface{}{"finding": "frame-prefix=636c656172", "expect_fail": true}})
 	}
-	// E2ETHR: sessions with a tight throttle (2 s bucket, refill of min+preview seconds of frames per
+	// E2ETHR: sessions with a tight throttle (4 s bucket, refill of min+preview seconds of frames per
 	// second) and continuous motion, paced in real time so that the bucket drains, the throttle cuts
 	// the recording and re-opens it from WriteFrame once the budget is back.  Where the cuts fall
 	// depends on the wall clock, so these sessions are judged here, file by file: every motion file
@@ -739,8 +805,10 @@ func init() {
 			in.SetRecorderDefaults, in.Const, in.WindowClosed, in.DiskFull = false, false, false, false
 			in.Motion.Dyn = false
 			in.Motion.Set["dynamic-threshold"] = true
-			in.Motion.Trigger, in.Motion.Count, in.Motion.Gap, in.Motion.One = 1, 1, 1, true
+			in.Motion.Trigger, in.Motion.Count, in.Motion.Gap, in.Motion.One = 2, 1, 1, true
 			in.Motion.Set["trigger-frames"], in.Motion.Set["count-thresh"], in.Motion.Set["frame-compare-gap"], in.Motion.Set["use-one-diff-only"] = true, true, true, true
+			in.Motion.Warmer = false // the blob flickers: with warmer-only every other frame would show no motion
+			in.Motion.Set["warmer-only"] = true
 			eff := in.effMotion()
 			lvl := int(eff.TempThresh)
 			hot := int(eff.DeltaThresh)*2 + 80
@@ -778,8 +846,19 @@ func init() {
 					}
 				}
 			}
+			// C05 through the real wiring: all frames that reached storage during the connection
+			// (a window no longer than the connection) within bucket + 2 + 1.01 x refill earned
+			stored := 0
+			for _, f := range o.Motion {
+				stored += len(f.IDs)
+			}
+			bucket, minFrames := 4*in.FPS, (in.MinSecs+in.PreviewSecs)*in.FPS
+			bound := float64(bucket+2) + 1.010000001*float64(minFrames)*float64(o.ElapsedMs)/1000.0
+			if float64(stored) > bound {
+				ok, why = false, why+fmt.Sprintf(" [%d frames stored in %d ms: more than bucket %d + 2 + refill %d/s = %.1f]", stored, o.ElapsedMs, bucket, minFrames, bound)
+			}
 			emit(Case{Coq: fmt.Sprintf("mkLag %s %d %d", coqBool(ok), len(o.Motion), nfr), Input: in,
-				Impl: map[string]interface{}{"ok": ok, "why": why, "motion_files": len(o.Motion), "ids_per_file": func() (l []int) {
+				Impl: map[string]interface{}{"ok": ok, "why": why, "motion_files": len(o.Motion), "frames_stored": stored, "elapsed_ms": o.ElapsedMs, "bound": bound, "ids_per_file": func() (l []int) {
 					for _, f := range o.Motion {
 						l = append(l, len(f.IDs))
 					}
@@ -802,6 +881,7 @@ func init() {
 		ins := make([]e2eInput, n)
 		for i := range ins {
 			ins[i] = e2eGen(rng, i)
+			ins[i].fixDisk()
 		}
 		out := make([]res, n)
 		sem := make(chan struct{}, 6)
